@@ -243,7 +243,10 @@ let vev_of = function
   | L [I t; k] when z_to_int t = 1 -> VFnStart (zv k)
   | _ -> failwith "vev"
 let register_c18 reg =
-  reg "runner_trace_ok" (function [n; tr] -> show_bool (runner_trace_ok (zv n) (L.map vev_of (lv tr))) | _ -> failwith "arity")
+  reg "runner_trace_ok" (function [n; tr] -> show_bool (runner_trace_ok (zv n) (L.map vev_of (lv tr))) | _ -> failwith "arity");
+  reg "runner_times_ok" (function [d; f; rs; st] ->
+    show_bool (runner_times_ok (zlist d) (zlist f) (zlist rs) (L.map (fun p -> match zlist p with [k; t] -> (k, t) | _ -> failwith "pair") (lv st)))
+    | _ -> failwith "arity")
 let () = section register_c18
 
 (* ---- C02 / C03 / C04 *)
